@@ -165,6 +165,7 @@ class PySnmpCodeGen(IntermediateCodeGen):
         dstTemplate = kwargs.get('dstTemplate')
         if dstTemplate:
             searchPath.insert(0, os.path.dirname(os.path.abspath(dstTemplate)))
+            dstTemplate = os.path.basename(dstTemplate)
 
         env = jinja2.Environment(loader=jinja2.FileSystemLoader(searchPath),
                                  trim_blocks=True, lstrip_blocks=True)
